@@ -177,6 +177,13 @@ class DiffXReader(object):
                         % section_id,
                         linenum=linenum)
 
+                if not isinstance(length, int) or length < 0:
+                    raise DiffXParseError(
+                        'Expected the length option of section "%s" to be a '
+                        'non-negative integer, not "%s"'
+                        % (section_id, length),
+                        linenum=linenum)
+
                 if section_id in PREAMBLE_SECTIONS:
                     # This is a preamble section.
                     #
@@ -465,7 +472,13 @@ class DiffXReader(object):
                 validate.
         """
         fp = self._fp
-        content = fp.read(length)
+
+        try:
+            content = fp.read(length)
+        except OverflowError:
+            raise DiffXParseError(
+                'The length of the content (%s) is too large' % length,
+                linenum=self._linenum)
 
         # First, determine the line endings that we're going to be working
         # with.
